@@ -928,8 +928,8 @@ VARIANTS = [
             "            if new_source != source:\n                filename.write_text(new_source)",
             "            if new_source:\n                filename.write_text(new_source)", "R3.2"),
     Variant("oracle-always-true", "FIRE", "core",
-            "        ast.parse(source)\n        return True\n    except SyntaxError:\n        return False",
-            "        ast.parse(source)\n        return True\n    except SyntaxError:\n        return True", "R3.4"),
+            "        ast.parse(source)\n        return True\n    except (SyntaxError, ValueError, RecursionError, MemoryError):\n        # ValueError: null bytes, lone surrogates. RecursionError: too deeply nested for the parser.\n        return False",
+            "        ast.parse(source)\n        return True\n    except (SyntaxError, ValueError, RecursionError, MemoryError):\n        return True", "R3.4"),
     Variant("wrapper-bypasses-apply", "FIRE", "processing",
             "                source = _apply_rewrites(source, scheduled_rewrites)\n\n                if source in history:\n                    break\n\n            return source\n\n        wrapper._fix_func",
             "                for _, (_, rewrite) in scheduled_rewrites:\n                    source = _do_rewrite(source, rewrite)\n\n                if source in history:\n                    break\n\n            return source\n\n        wrapper._fix_func", "R3.1"),
